@@ -106,7 +106,21 @@ def c13_announce_docs():
                 yield {'nodes': nodes, 'edges': edges, 'announce': ann}
 
 
+def c13_tail_docs():
+    """documents that go on after the edge list: with a third element the format cannot parse (truncated / damaged
+    tail: the error is reported on every further request) or with a well-formed third element"""
+    for nodes in ([], [[0, {'s': 'n0'}], [1, {'s': 'n1'}]]):
+        for edges in ([], [[0, 1, {'s': 'e0'}]], [[0, 2, {'s': 'e0'}]]):
+            if edges and not nodes:
+                continue
+            for tail in ('err', 'extra'):
+                yield {'nodes': nodes, 'edges': edges, 'tail': tail}
+
+
 def c13_scenarios(flavour, max_nodes, max_edges):
+    for doc in c13_tail_docs():
+        yield (flavour, 'tail-' + doc['tail']), {'flavour': flavour, 'nodes': [], 'steps': [['g_deserialize', doc]],
+                                                 'meta': {'family': 'untrusted'}}
     for doc in c13_announce_docs():
         yield (flavour, 'announced-length'), {'flavour': flavour, 'nodes': [], 'steps': [['g_deserialize', doc]],
                                               'meta': {'family': 'untrusted'}}
@@ -194,7 +208,7 @@ def run(prop, tier, seed):
         prop, tier, seed, items, evaluate_c13, sig_c13,
         bounds={'node_list_length': 3, 'edge_list_length': 3 if tier == 'quick' else 4,
                 'declared_key_domain': [0, 1], 'endpoint_domain': [0, 1, 2],
-                'shapes': 'each list absent / present / replaced by an element the format reports as an error; list headers announcing 2^64-1 elements (size_hint of a length-prefixed format; natively a crafted CBOR header)',
+                'shapes': 'each list absent / present / replaced by an element the format reports as an error; list headers announcing 2^64-1 elements (size_hint of a length-prefixed format; natively a crafted CBOR header); documents that continue after the edge list with an unparsable (sticky error) or a well-formed third element',
                 'symbolic': 'node values, edge values',
                 'outside': 'byte-level truncation and mutation inside serde_json / serde_cbor (what they hand to visit_seq is what is enumerated here)'},
         assumptions=['formats call visit_seq with a SeqAccess yielding at most the two sequences, or an error'],
